@@ -1,12 +1,5 @@
-/-! Executable model for property C09 (core-only).  Not built yet: the driver answers
-    `unimplemented` so that a check of this property cannot pass by accident. -/
+import FpgoVerif.Model.C09Sys
 namespace FpgoVerif.C09
-
-/-- one protocol case line in, one canonical observation line out -/
 def handle (_line : String) : String := "unimplemented"
-
-/-- spec-level oracle: given the case line and the observation printed by the real code, decide
-    whether the *property* is violated (`violation <why>`) or not (`allowed <why>`). -/
 def judge (_line _impl : String) : String := "violation model-and-implementation-disagree"
-
 end FpgoVerif.C09
